@@ -188,7 +188,7 @@ def run(ctx):
                             "multiplets of degree 2-5 on one class, dangling entries; with and without gap detection. Non-trivial = >= 1 conflict, multiplet or gap; "
                             "distinct by (structure, list, gap flag).")
     corr_expr, corr_exp, corr_case = [], [], []
-    files = ["1E7K_1_C.cif", "4WTI_1_T-P.cif", "1HMH_1_E.cif", "6INQ.cif"] + ([] if ctx.quick else ["1ehz-assembly-1.cif", "184D.cif", "1DFU_1_M-N.cif"])
+    files = ["1E7K_1_C.cif", "4WTI_1_T-P.cif", "1HMH_1_E.cif", "6INQ.cif", "488d.pdb"] + ([] if ctx.quick else ["1ehz-assembly-1.cif", "184D.cif", "1DFU_1_M-N.cif"])   # 488d: residue numbers jump upwards at the chain boundaries
     for name in files:
         base = geo.load3d(name)
         variants = [("full", base)]
